@@ -215,6 +215,7 @@ def rebuild_equal(tree, data_by_idx, tree_dists, rel=1e-8, extra=0.0, stats=None
     forest, names = gen.tree_to_forest(tree)
     with unmemoised():
         fresh, fnames = gen.build_tree(forest, data_by_idx, grid_size=tree.grid_size)
+        fresh.update()  # every vector recomputed bottom-up once more: the reference owes nothing to incremental refreshes
     a = node_vectors(tree)
     b = node_vectors(fresh)
     worst = 0.0
